@@ -62,16 +62,22 @@ Untyped(c)  == c.typ = "untyped"
 Rank(cls)   == CASE cls = "int" -> 1 [] cls = "rune" -> 2 [] OTHER -> 3
 DefaultKind(cls) == CASE cls = "int" -> "int" [] cls = "rune" -> "int32" [] cls = "float" -> "float64" [] OTHER -> cls
 
-NoWhy == [reason |-> "", site |-> "", kind |-> "", opnd |-> "", mag |-> ""]
-Why(reason, site, kind, opnd, mag) == [reason |-> reason, site |-> site, kind |-> kind, opnd |-> opnd, mag |-> mag]
+\* why a case is rejected: reason, the site (operation or context) that rejects, the target
+\* kind, whether the offending operand is an untyped or a typed constant, how far outside
+\* the target it is (mag), its class (cls), and - for contexts - the form of the value
+\* expression (root: "lit", "un", "bin", "conv", ...)
+NoWhy == [reason |-> "", site |-> "", kind |-> "", opnd |-> "", mag |-> "", cls |-> "", root |-> ""]
+Why(reason, site, kind, opnd, mag) == [reason |-> reason, site |-> site, kind |-> kind, opnd |-> opnd, mag |-> mag, cls |-> "", root |-> ""]
+WithCls(r, c) == IF r.st = "reject" THEN [r EXCEPT !.why.cls = c.class] ELSE r
 Dummy == IntC("int", "untyped", Zero)
 
 \* st: "ok" | "reject" | "unspec" | "illtyped".  lim: some intermediate untyped integer
 \* exceeded 512 bits or a constant shift count exceeded go/types' bound (the value is
 \* still the exact one: an implementation may reject the expression or evaluate it).
-Ok(c)            == [st |-> "ok", c |-> c, why |-> NoWhy, tags |-> {}, nrej |-> 0, lim |-> FALSE]
-OkLim(c)         == [st |-> "ok", c |-> c, why |-> NoWhy, tags |-> {}, nrej |-> 0, lim |-> TRUE]
-Bad(st, why)     == [st |-> st, c |-> Dummy, why |-> why, tags |-> {}, nrej |-> IF st = "reject" THEN 1 ELSE 0, lim |-> FALSE]
+\* inner: the verdict comes from a proper sub-expression (the operation that produced it is not the outermost one)
+Ok(c)            == [st |-> "ok", c |-> c, why |-> NoWhy, tags |-> {}, nrej |-> 0, lim |-> FALSE, inner |-> FALSE]
+OkLim(c)         == [st |-> "ok", c |-> c, why |-> NoWhy, tags |-> {}, nrej |-> 0, lim |-> TRUE, inner |-> FALSE]
+Bad(st, why)     == [st |-> st, c |-> Dummy, why |-> why, tags |-> {}, nrej |-> IF st = "reject" THEN 1 ELSE 0, lim |-> FALSE, inner |-> FALSE]
 Reject(why)      == Bad("reject", why)
 Illtyped         == Bad("illtyped", NoWhy)
 Unspec           == Bad("unspec", NoWhy)
@@ -84,7 +90,8 @@ AddTags(r, t)    == [r EXCEPT !.tags = r.tags \cup t]
 \* (the left one on equal severity); reject sites are counted
 Worst(ra, rb) ==
     LET w == IF Severity(rb.st) > Severity(ra.st) THEN rb ELSE ra
-    IN [w EXCEPT !.tags = ra.tags \cup rb.tags, !.nrej = ra.nrej + rb.nrej, !.lim = ra.lim \/ rb.lim]
+    IN [w EXCEPT !.tags = ra.tags \cup rb.tags, !.nrej = ra.nrej + rb.nrej, !.lim = ra.lim \/ rb.lim, !.inner = TRUE]
+Inner(ra) == [ra EXCEPT !.inner = TRUE]
 
 -------------------------------------------------------------------------------
 (* Float arithmetic on exact dyadic values.                                    *)
@@ -141,14 +148,17 @@ Representable(c, k) ==
     ELSE c.class = k
 
 \* c numeric, k numeric kind; site/opnd describe where the conversion happens
-ConvNumTo(c, k, site, opnd) ==
+ConvNumTo0(c, k, site, opnd) ==
     IF k \in IntKinds THEN
         IF c.class = "float" /\ ~FIsInt(c) THEN Reject(Why("truncated", site, k, opnd, ""))
         ELSE LET v == IntValue(c)
-             IN IF RepInt(v, k) THEN Ok(IntC("int", k, v))
+             IN IF RepInt(v, k) THEN
+                    (IF c.class = "float" /\ Untyped(c) /\ ~ExactIn(c, "float64")
+                     THEN AddTags(Ok(IntC("int", k, v)), {"float-inexact-to-int"}) ELSE Ok(IntC("int", k, v)))
                 ELSE Reject(Why("overflow", site, k, opnd, SignOf(v) \o MagClass(v, k)))
     ELSE LET r == RoundTo(AsFloat(c), k, k)
          IN IF r.ovf THEN Reject(Why("overflow", site, k, opnd, "f")) ELSE Ok(r.c)
+ConvNumTo(c, k, site, opnd) == WithCls(ConvNumTo0(c, k, site, opnd), c)
 
 \* the untyped bounds
 Finish(c, site) ==
@@ -202,6 +212,13 @@ LogicOps == {"&&", "||"}
 BinOps   == ArithOps \cup ShiftOps \cup CmpOps \cup LogicOps
 UnOps    == {"+", "-", "^", "!"}
 
+\* Named exclusion: the reference itself deviates from the language here.  go/constant
+\* computes the quotient of two constants that fit int64 in int64, so (-1 << 63) / -1 wraps to
+\* -1 << 63 (go1.23: `const x = (-1 * 9223372036854775808) / -1` is negative) where the
+\* specification's exact arithmetic gives 1 << 63.  The case cannot be triangulated and is not generated.
+Excluded_GoConstant_MinInt64QuoMinusOne(a, b) ==
+    Untyped(a) /\ a.i = Neg(Pow2(63)) /\ b.i = FromInt(-1)
+
 \* a, b matched (same type; same class for numbers)
 Arith(op, a, b) ==
     IF a.class = "string" THEN
@@ -221,7 +238,9 @@ Arith(op, a, b) ==
         IN CASE op = "+"  -> mk(Add(a.i, b.i))
              [] op = "-"  -> mk(Sub(a.i, b.i))
              [] op = "*"  -> mk(Mul(a.i, b.i))
-             [] op = "/"  -> IF IsZero(b.i) THEN dz ELSE mk(Quo(a.i, b.i))
+             [] op = "/"  -> IF IsZero(b.i) THEN dz
+                             ELSE IF Excluded_GoConstant_MinInt64QuoMinusOne(a, b) THEN Unspec
+                             ELSE mk(Quo(a.i, b.i))
              [] op = "%"  -> IF IsZero(b.i) THEN dz ELSE mk(Rem(a.i, b.i))
              [] op = "&"  -> mk(BAnd(a.i, b.i))
              [] op = "|"  -> mk(BOr(a.i, b.i))
@@ -280,8 +299,11 @@ Shift(op, a, b) ==
             IN [f EXCEPT !.lim = f.lim \/ sc.r.lim]
 
 \* both untyped numeric and one of them is not held exactly by its default machine type
+\* (each operand as written, and as converted to the common class of the two)
 CmpTag(a, b) ==
-    IF Untyped(a) /\ Untyped(b) /\ IsNum(a) /\ IsNum(b) /\ (~ExactInDefault(a) \/ ~ExactInDefault(b))
+    IF Untyped(a) /\ Untyped(b) /\ IsNum(a) /\ IsNum(b)
+       /\ LET cls == IF Rank(a.class) >= Rank(b.class) THEN a.class ELSE b.class
+          IN ~ExactInDefault(a) \/ ~ExactInDefault(b) \/ ~ExactInDefault(ToClass(a, cls)) \/ ~ExactInDefault(ToClass(b, cls))
     THEN {"cmp-inexact"} ELSE {}
 
 Apply2(op, ra, rb) ==
@@ -289,16 +311,26 @@ Apply2(op, ra, rb) ==
     ELSE LET a == ra.c
              b == rb.c
              cl == IF op \in ArithOps THEN "arith" ELSE IF op \in CmpOps THEN "cmp" ELSE "logic"
+             \* operator applicability by class comes first (a type error, not this property's business)
+             compat == IF op \in LogicOps THEN a.class = "bool" /\ b.class = "bool"
+                       ELSE IF op \in CmpOps THEN (IsNum(a) /\ IsNum(b)) \/ (a.class = b.class /\ ~IsNum(a) /\ (a.class = "bool" => op \in {"==", "!="}))
+                       ELSE IF op = "+" THEN (IsNum(a) /\ IsNum(b)) \/ (a.class = "string" /\ b.class = "string")
+                       ELSE IF op \in {"-", "*", "/"} THEN IsNum(a) /\ IsNum(b)
+                       ELSE \* % & | ^ &^: integers; an untyped float operand is a type error even when integral
+                            IsIntCls(a) /\ IsIntCls(b)
          IN IF op \in ShiftOps THEN From2(Shift(op, a, b), ra, rb)
+            ELSE IF ~compat \/ (~Untyped(a) /\ ~Untyped(b) /\ a.typ # b.typ) THEN From2(Illtyped, ra, rb)
             ELSE LET m == Match(a, b)
                  IN IF m.r.st = "reject" THEN From2([m.r EXCEPT !.why.site = "implicit-" \o cl], ra, rb)
                     ELSE IF m.r.st # "ok" THEN From2(m.r, ra, rb)
-                    ELSE IF op \in ArithOps THEN From2(Arith(op, m.a, m.b), ra, rb)
+                    ELSE IF op \in ArithOps THEN
+                        AddTags(From2(Arith(op, m.a, m.b), ra, rb),
+                                IF op = "/" /\ Untyped(a) /\ Untyped(b) /\ {a.class, b.class} = {"int", "rune"} THEN {"quo-rune-int"} ELSE {})
                     ELSE IF op \in CmpOps THEN AddTags(From2(Compare(op, m.a, m.b), ra, rb), CmpTag(a, b))
                     ELSE From2(Logic(op, m.a, m.b), ra, rb)
 
 Apply1(op, ra) ==
-    IF ra.st # "ok" THEN ra
+    IF ra.st # "ok" THEN Inner(ra)
     ELSE LET a == ra.c
              r == CASE op = "!" -> IF a.class = "bool" THEN Ok(BoolC(a.typ, ~a.b)) ELSE Illtyped
                     [] op = "+" -> IF IsNum(a) THEN Ok(a) ELSE Illtyped
@@ -314,13 +346,15 @@ Apply1(op, ra) ==
 ValidRune(v) == ~v.neg /\ Cmp(v, FromInt(1114111)) <= 0
                 /\ ~(Cmp(v, FromInt(55296)) >= 0 /\ Cmp(v, FromInt(57343)) <= 0)
 Convert(k, ra) ==
-    IF ra.st # "ok" THEN ra
+    IF ra.st # "ok" THEN Inner(ra)
     ELSE LET a == ra.c
              opnd == IF Untyped(a) THEN "untyped" ELSE "typed"
              r == IF k \in NumKinds THEN (IF IsNum(a) THEN ConvNumTo(a, k, "conv", opnd) ELSE Illtyped)
                   ELSE IF k = "string" THEN
                       (IF a.class = "string" THEN Ok(StrC("string", a.s))
-                       ELSE IF IsIntCls(a) THEN Ok(StrC("string", <<IF ValidRune(a.i) THEN MSmall(a.i.mag) ELSE 65533>>))
+                       ELSE IF IsIntCls(a) THEN
+                           (IF RepInt(a.i, "int32") THEN Ok(StrC("string", <<IF ValidRune(a.i) THEN MSmall(a.i.mag) ELSE 65533>>))
+                            ELSE AddTags(Ok(StrC("string", <<65533>>)), {"string-of-wide-int"}))
                        ELSE Illtyped)
                   ELSE (IF a.class = "bool" THEN Ok(BoolC("bool", a.b)) ELSE Illtyped)
          IN From1(r, ra)
@@ -331,13 +365,13 @@ ByteLen(s) == IF s = <<>> THEN 0 ELSE Utf8Len(s[1]) + ByteLen(Tail(s))
 
 \* len(x) of a constant string
 LenOf(ra) ==
-    IF ra.st # "ok" THEN ra
+    IF ra.st # "ok" THEN Inner(ra)
     ELSE IF ra.c.class = "string" THEN From1(Ok(IntC("int", "int", FromInt(ByteLen(ra.c.s)))), ra)
     ELSE From1(Illtyped, ra)
 
 \* len([x]T{}): x in array-length position
 ArrLenOf(ra) ==
-    IF ra.st # "ok" THEN ra
+    IF ra.st # "ok" THEN Inner(ra)
     ELSE LET a == ra.c
              opnd == IF Untyped(a) THEN "untyped" ELSE "typed"
              r == IF ~IsNum(a) \/ (~Untyped(a) /\ a.typ \notin IntKinds) THEN Illtyped
@@ -346,6 +380,7 @@ ArrLenOf(ra) ==
                        IN IF v.neg THEN Reject(Why("negative", "arraylen", "int", opnd, ""))
                           ELSE IF ~RepInt(v, "int") THEN Reject(Why("overflow", "arraylen", "int", opnd, "+" \o MagClass(v, "int")))
                           ELSE IF Cmp(v, FromInt(MaxArrayLen)) > 0 THEN Unspec
+                          ELSE IF a.class = "float" THEN AddTags(Ok(IntC("int", "int", v)), {"arraylen-float"})
                           ELSE Ok(IntC("int", "int", v))
          IN From1(r, ra)
 
@@ -376,19 +411,65 @@ LitValue(o, n) ==
       [] o = "s"   -> StrC("untyped", <<97, 98>>)
       [] o = "b"   -> BoolC("untyped", n = 1)
 
-Step(tok, st, iota) ==
-    LET n == Len(st) IN
+\* Syntactic facts about the operands of the binary operator at position i, used to tag
+\* cases (tags never change a verdict; they let a failing case be attributed precisely).
+Arity(t) == CASE t.k \in {"lit", "iota"} -> 0 [] t.k = "bin" -> 2 [] OTHER -> 1
+RECURSIVE SpanStart(_, _, _)
+SpanStart(toks, j, need) ==            \* first index of the sub-expression whose root is at j
+    LET m == need + Arity(toks[j]) - 1 IN IF m = 0 THEN j ELSE SpanStart(toks, j - 1, m)
+\* a plain operand: a non-negative literal or iota (a negative literal is -x in Go's grammar
+\* and is rendered in parentheses)
+Plain(t) == t.k = "iota" \/ (t.k = "lit" /\ ~(t.o = "i" /\ t.n < 0))
+LenOfCompound(toks, j) == toks[j].k = "len" /\ ~Plain(toks[j - 1])
+SynTags(toks, i, a, b, rtags) ==
+    LET r  == i - 1                              \* root of the right operand
+        l  == SpanStart(toks, r, 1) - 1          \* root of the left operand
+        o  == toks[i].o
+    IN (IF o \in CmpOps /\ Untyped(a) /\ Untyped(b) /\ a.class # "bool" /\ ~Plain(toks[r])
+        THEN {"cmp-right-compound"} ELSE {})
+       \cup (IF LenOfCompound(toks, r) \/ LenOfCompound(toks, l) THEN {"len-compound-operand"} ELSE {})
+       \cup (IF o \in ShiftOps /\ Untyped(a) /\ a.class = "float" THEN {"shift-of-float"} ELSE {})
+       \cup (IF o \in ShiftOps /\ Untyped(a) /\ ~Untyped(b) THEN {"shift-typed-count"} ELSE {})
+       \cup (IF o \in CmpOps \cup LogicOps THEN {"has-cmp"} ELSE {})
+       \cup (IF o \in LogicOps /\ toks[l].k = "conv" /\ "has-cmp" \in rtags THEN {"logic-conv-left"} ELSE {})
+
+Step(toks, i, st, iota) ==
+    LET n == Len(st) tok == toks[i] IN
     CASE tok.k = "lit"    -> Append(st, Ok(LitValue(tok.o, tok.n)))
       [] tok.k = "iota"   -> Append(st, Ok(IntC("int", "untyped", FromInt(iota))))
-      [] tok.k = "un"     -> Append(SubSeq(st, 1, n - 1), Apply1(tok.o, st[n]))
-      [] tok.k = "conv"   -> Append(SubSeq(st, 1, n - 1), Convert(tok.o, st[n]))
+      [] tok.k = "un"     -> Append(SubSeq(st, 1, n - 1),
+                                    AddTags(Apply1(tok.o, st[n]), IF LenOfCompound(toks, i - 1) THEN {"len-compound-operand"} ELSE {}))
+      [] tok.k = "conv"   -> Append(SubSeq(st, 1, n - 1),
+                                    AddTags(Convert(tok.o, st[n]), IF LenOfCompound(toks, i - 1) THEN {"len-compound-operand"} ELSE {}))
       [] tok.k = "len"    -> Append(SubSeq(st, 1, n - 1), LenOf(st[n]))
       [] tok.k = "arrlen" -> Append(SubSeq(st, 1, n - 1), ArrLenOf(st[n]))
-      [] tok.k = "bin"    -> Append(SubSeq(st, 1, n - 2), Apply2(tok.o, st[n - 1], st[n]))
+      [] tok.k = "bin"    -> Append(SubSeq(st, 1, n - 2),
+                                    LET r == Apply2(tok.o, st[n - 1], st[n])
+                                    IN IF st[n - 1].st = "ok" /\ st[n].st = "ok"
+                                       THEN AddTags(r, SynTags(toks, i, st[n - 1].c, st[n].c, st[n].tags)) ELSE r)
 
 RECURSIVE Run(_, _, _, _)
-Run(toks, i, st, iota) == IF i > Len(toks) THEN st[1] ELSE Run(toks, i + 1, Step(toks[i], st, iota), iota)
+Run(toks, i, st, iota) == IF i > Len(toks) THEN st[1] ELSE Run(toks, i + 1, Step(toks, i, st, iota), iota)
 Eval(toks, iota) == Run(toks, 1, <<>>, iota)
+\* the stack just before the last token: the operands of the outermost operation
+RECURSIVE RunStack(_, _, _, _, _)
+RunStack(toks, i, n, st, iota) == IF i > n THEN st ELSE RunStack(toks, i + 1, n, Step(toks, i, st, iota), iota)
+RootOperands(toks, iota) == RunStack(toks, 1, Len(toks) - 1, <<>>, iota)
+RootKind(toks) == toks[Len(toks)].k
+\* a declaration/assignment with declared kind k whose value is a binary constant expression:
+\* Go converts the RESULT to k; the operands keep their own types.  The tag marks the
+\* expressions for which converting the operands instead gives another answer.
+DeclTags(toks, k, iota) ==
+    IF Len(toks) < 3 \/ RootKind(toks) # "bin" \/ k \notin NumKinds THEN {}
+    ELSE LET ops == RootOperands(toks, iota)
+             o   == toks[Len(toks)].o
+         IN IF \E j \in 1..Len(ops) : ops[j].st # "ok" THEN {}
+            ELSE IF (o \in ShiftOps /\ k \in FloatKinds)
+                    \/ (\E j \in 1..Len(ops) : Untyped(ops[j].c) /\ IsNum(ops[j].c) /\ ~(o \in ShiftOps /\ j = 2)
+                                                 /\ ~Representable(ops[j].c, k))
+                    \/ (o = "/" /\ k \in FloatKinds /\ \A j \in 1..Len(ops) : IsIntCls(ops[j].c))
+                    \/ (k \in FloatKinds /\ LET r == Eval(toks, iota) IN r.st = "ok" /\ IsNum(r.c) /\ ~ExactIn(AsFloat(r.c), k))
+                 THEN {"decl-type-on-operands"} ELSE {}
 
 -------------------------------------------------------------------------------
 (* Use contexts: an untyped constant v used where a value of kind k is needed. *)
@@ -398,7 +479,7 @@ Eval(toks, iota) == Run(toks, 1, <<>>, iota)
 (* non-constant shift.                                                         *)
 UseVerdict(ctx, k, toks) ==
     LET r == Eval(toks, 0) IN
-    IF r.st # "ok" THEN r
+    IF r.st # "ok" THEN Unspec          \* the boundary expressions themselves are valid
     ELSE IF ~Untyped(r.c) \/ ~IsNum(r.c) THEN Illtyped
     ELSE IF ctx = "arraylen" THEN ArrLenOf(r)
     ELSE IF ctx = "shiftcount" THEN
@@ -408,7 +489,10 @@ UseVerdict(ctx, k, toks) ==
              IN IF v.neg THEN Reject(Why("negshift", "shiftcount", "uint", "untyped", ""))
                 ELSE IF ~RepInt(v, "uint") THEN Reject(Why("overflow", "shiftcount", "uint", "untyped", "+big"))
                 ELSE Ok(IntC("int", "uint64", IF Cmp(v, FromInt(64)) >= 0 THEN Zero ELSE Pow2(MSmall(v.mag))))
-    ELSE From1(ConvNumTo(r.c, k, ctx, "untyped"), r)
+    ELSE LET v == From1(ConvNumTo(r.c, k, ctx, "untyped"), r)
+             w == IF v.st = "reject" THEN [v EXCEPT !.why.root = RootKind(toks)] ELSE v
+         IN AddTags(w, DeclTags(toks, k, 0)
+                       \cup (IF IsIntCls(r.c) /\ ~RepInt(r.c.i, "int64") THEN {"src-beyond-int64"} ELSE {}))
 
 -------------------------------------------------------------------------------
 (* Const blocks.  A spec is [blank, impl, typ, toks]: blank name (_) or named, *)
@@ -426,7 +510,12 @@ SpecValue(specs, j) ==
         r == Eval(e.toks, j - 1)
     IN IF r.st # "ok" \/ e.typ = "untyped" THEN r
        ELSE IF ~Untyped(r.c) THEN (IF r.c.typ = e.typ THEN r ELSE Illtyped)
-       ELSE IF e.typ \in NumKinds THEN (IF IsNum(r.c) THEN ConvNumTo(r.c, e.typ, "constdecl", "untyped") ELSE Illtyped)
+       ELSE IF e.typ \in NumKinds THEN
+           (IF IsNum(r.c) THEN
+                LET v == From1(ConvNumTo(r.c, e.typ, "constdecl", "untyped"), r)
+                    w == IF v.st = "reject" THEN [v EXCEPT !.why.root = RootKind(e.toks)] ELSE v
+                IN AddTags(w, DeclTags(e.toks, e.typ, j - 1))
+            ELSE Illtyped)
        ELSE IF r.c.class = e.typ THEN Ok([r.c EXCEPT !.typ = e.typ]) ELSE Illtyped
 
 BlockValues(specs) == [j \in 1..Len(specs) |-> SpecValue(specs, j)]
@@ -457,7 +546,7 @@ OutConst(c) ==
      str |-> c.s, b |-> c.b, ptype |-> PrintType(c),
      inexact |-> (Untyped(c) /\ IsNum(c) /\ ~ExactInDefault(c))]
 OutRes(r) ==
-    [st |-> r.st, lim |-> r.lim, c |-> OutConst(r.c), why |-> r.why, tags |-> r.tags, nrej |-> r.nrej]
+    [st |-> r.st, lim |-> r.lim, inner |-> r.inner, c |-> OutConst(r.c), why |-> r.why, tags |-> r.tags, nrej |-> r.nrej]
 
 \* (the table is a parameterless constant definition: evaluated once)
 TabLits == {Lit("i", n) : n \in {0, 1, -1, 3, 10, 255}}
@@ -487,13 +576,17 @@ RedLits   == {Lit("i", 1), Lit("i", -1), Lit("i", 3), Lit("pm1", 7), Lit("p", 7)
               Lit("pm1", 64), Lit("p", 200), Lit("f", 2), Lit("r", 97)}
 RedKinds  == {"int8", "uint8", "int32", "int64", "uint64", "float32", "float64"}
 
-CONSTANTS Ops,         \* the operators this run enumerates (a subset of BinOps; "un" adds the unary,
+CONSTANTS Shapes,      \* E2: which shapes ("tt" typed o typed, "tu" typed o untyped, "ut" untyped o typed)
+          Ops,         \* the operators this run enumerates (a subset of BinOps; "un" adds the unary,
                        \* conversion and len forms): several JVMs share an exhaustive tier
           Lits,        \* "all" | "red": literal set of the exhaustive expression tiers
-          Kds,         \* "all" | "red": kinds of the typed leaves in the exhaustive tier E2
+          Kds,         \* "all" | "red" | "min": kinds of the typed leaves in the exhaustive tier E2 (and forms of the blocks)
           MaxSpecs     \* const blocks: number of specs
 
-LitSet == IF Lits = "all" THEN AllLits ELSE RedLits
+MidLits   == {Lit("i", 0), Lit("i", 1), Lit("i", -1), Lit("i", 3), Lit("i", 255), Lit("pm1", 7), Lit("p", 7), Lit("p", 8),
+              Lit("p", 31), Lit("pm1", 32), Lit("pm1", 63), Lit("p", 63), Lit("pm1", 64), Lit("p", 64), Lit("pp1", 200),
+              Lit("f", 2), Lit("f", 3), Lit("r", 97), Lit("s", 1), Lit("b", 1)}
+LitSet == IF Lits = "all" THEN AllLits ELSE IF Lits = "mid" THEN MidLits ELSE RedLits
 
 \* (the generating sets take a dummy argument: TLC evaluates every parameterless
 \* constant-level definition at start-up, whether the cfg uses it or not)
@@ -511,21 +604,22 @@ E1Trees(z) ==
 \* kind, or untyped), a unary operator or a conversion of a typed leaf
 TypedLeaves(ks) == {<<a, ConvT(k)>> : a \in LitSet, k \in ks}
 E2Trees(ks) ==
-       {<<a, ConvT(k), b, ConvT(k), BinT(o)>> : a \in LitSet, b \in LitSet, k \in ks, o \in SelBin}
-  \cup {<<a, ConvT(k), b, BinT(o)>> : a \in LitSet, b \in LitSet, k \in ks, o \in SelBin}
-  \cup {<<b, a, ConvT(k), BinT(o)>> : a \in LitSet, b \in LitSet, k \in ks, o \in SelBin}
+       (IF "tt" \in Shapes THEN {<<a, ConvT(k), b, ConvT(k), BinT(o)>> : a \in LitSet, b \in LitSet, k \in ks, o \in SelBin} ELSE {})
+  \cup (IF "tu" \in Shapes THEN {<<a, ConvT(k), b, BinT(o)>> : a \in LitSet, b \in LitSet, k \in ks, o \in SelBin} ELSE {})
+  \cup (IF "ut" \in Shapes THEN {<<b, a, ConvT(k), BinT(o)>> : a \in LitSet, b \in LitSet, k \in ks, o \in SelBin} ELSE {})
   \cup (IF ~SelUn THEN {} ELSE
            {<<a, ConvT(k), UnT(o)>> : a \in LitSet, k \in ks, o \in UnOps}
       \cup {<<a, ConvT(k), ConvT(k2)>> : a \in LitSet, k \in ks, k2 \in Kinds}
       \cup {<<a, ConvT("string"), LenT>> : a \in LitSet})
 
 \* two operator levels over untyped leaves: (a o1 b) o2 c, c o2 (a o1 b), -(a o1 b), T(a o1 b)
+E3Lits == {Lit("i", 1), Lit("i", -1), Lit("pm1", 7), Lit("p", 63), Lit("p", 200), Lit("f", 2)}
 E3Trees(z) ==
-       {<<a, b, BinT(o1), c, BinT(o2)>> : a \in RedLits, b \in RedLits, c \in RedLits, o1 \in BinOps, o2 \in SelBin}
-  \cup {<<c, a, b, BinT(o1), BinT(o2)>> : a \in RedLits, b \in RedLits, c \in RedLits, o1 \in BinOps, o2 \in SelBin}
+       {<<a, b, BinT(o1), c, BinT(o2)>> : a \in E3Lits, b \in E3Lits, c \in E3Lits, o1 \in BinOps, o2 \in SelBin}
+  \cup {<<c, a, b, BinT(o1), BinT(o2)>> : a \in E3Lits, b \in E3Lits, c \in E3Lits, o1 \in BinOps, o2 \in SelBin}
   \cup (IF ~SelUn THEN {} ELSE
-           {<<a, b, BinT(o1), UnT(o2)>> : a \in RedLits, b \in RedLits, o1 \in BinOps, o2 \in UnOps}
-      \cup {<<a, b, BinT(o1), ConvT(k)>> : a \in RedLits, b \in RedLits, o1 \in BinOps, k \in Kinds})
+           {<<a, b, BinT(o1), UnT(o2)>> : a \in E3Lits, b \in E3Lits, o1 \in BinOps, o2 \in UnOps}
+      \cup {<<a, b, BinT(o1), ConvT(k)>> : a \in E3Lits, b \in E3Lits, o1 \in BinOps, k \in Kinds})
 
 \* use contexts: boundary values per kind
 Ctxs == {"constdecl", "vardecl", "assign", "opassign", "callarg", "return", "elem-slice", "elem-array",
@@ -588,6 +682,7 @@ Forms == {FormToks("iota", 0, 0), FormToks("shl", 0, 0), FormToks("shl10", 0, 0)
           FormToks("lin", 50, -1), FormToks("neg", 0, 0), FormToks("lit", 10, 0), FormToks("flt", 0, 0),
           FormToks("rune", 0, 0), FormToks("conv8", 50, 0), FormToks("convu", 1, 0)}
 RedForms == {FormToks("iota", 0, 0), FormToks("shl", 0, 0), FormToks("lin", 50, -1), FormToks("conv8", 50, 0)}
+MinForms == {FormToks("iota", 0, 0), FormToks("shl", 0, 0), FormToks("lin", 50, -1)}
 BlockTyps == {"untyped", "int8", "uint8", "int", "float64"}
 RedTyps   == {"untyped", "int8"}
 Explicits(fs, ts) == {Spec(bl, FALSE, t, f) : bl \in BOOLEAN, t \in ts, f \in fs}
@@ -595,13 +690,13 @@ Implicits == {Spec(bl, TRUE, "untyped", <<>>) : bl \in BOOLEAN}
 BlocksOf(n, fs, ts) ==
     {<<h>> \o tl : h \in {s \in Explicits(fs, ts) : ~s.blank}, tl \in [1..(n - 1) -> Explicits(fs, ts) \cup Implicits]}
 BlockCases(z) ==
-    UNION {{BlockCase(b, pl) : b \in BlocksOf(n, RedForms, RedTyps), pl \in {"pkg", "func"}} : n \in 1..MaxSpecs}
+    UNION {{BlockCase(b, pl) : b \in BlocksOf(n, IF Kds = "min" THEN MinForms ELSE RedForms, RedTyps), pl \in {"pkg", "func"}} : n \in 1..MaxSpecs}
 
 -------------------------------------------------------------------------------
 VARIABLES case, res
 vars == <<case, res>>
 
-Pending == [st |-> "?", c |-> Dummy, why |-> NoWhy, tags |-> {}, nrej |-> 0, lim |-> FALSE]
+Pending == [st |-> "?", c |-> Dummy, why |-> NoWhy, tags |-> {}, nrej |-> 0, lim |-> FALSE, inner |-> FALSE]
 
 Verdict(cs) ==
     CASE cs.tier = "expr"  -> Eval(cs.toks, 0)
@@ -609,7 +704,8 @@ Verdict(cs) ==
       [] cs.tier = "block" -> WorstOf(BlockValues(cs.specs), 1)
 
 InitE1     == case \in {ExprCase(t) : t \in E1Trees(Lits)} /\ res = Pending
-InitE2     == case \in {ExprCase(t) : t \in E2Trees(IF Kds = "all" THEN Kinds ELSE RedKinds)} /\ res = Pending
+MinKinds   == {"int8", "uint8", "int64", "float32"}
+InitE2     == case \in {ExprCase(t) : t \in E2Trees(IF Kds = "all" THEN Kinds ELSE IF Kds = "min" THEN MinKinds ELSE RedKinds)} /\ res = Pending
 InitE3     == case \in {ExprCase(t) : t \in E3Trees(Lits)} /\ res = Pending
 InitUse    == case \in UseCasesAll(Lits) /\ res = Pending
 InitBlocks == case \in BlockCases(Lits) /\ res = Pending
@@ -760,5 +856,7 @@ OutCase ==
                    toks |-> case.specs[j].toks, lits |-> LitDecs(case.specs[j].toks)]],
      vals |-> IF case.tier = "block" THEN [j \in 1..Len(case.specs) |-> OutRes(SpecValue(case.specs, j))] ELSE <<>>,
      res |-> OutRes(res)]
-Emit == (Decided /\ Emitted(res.st)) => PrintT(<<"BEH", ToJson(OutCase)>>)
+\* a rejection is emitted when the rejecting operation is the outermost one (its operands are valid
+\* constants); what an implementation does with an operator over an invalid operand is noise
+Emit == (Decided /\ Emitted(res.st) /\ ~(case.tier = "expr" /\ res.st = "reject" /\ res.inner)) => PrintT(<<"BEH", ToJson(OutCase)>>)
 ===============================================================================
